@@ -5,6 +5,7 @@ From TV Require Import Proofs.GrammarBase.
 From TV Require Import Proofs.SpansDefs Proofs.SpansDoc Proofs.SpansDespan Proofs.SpansExact Proofs.SpansReparse.
 From TV Require Import Proofs.SpansNestValue Proofs.SpansNestDoc.
 From TV Require Import Proofs.SpansBoundary Proofs.SpansBdDoc Proofs.SpansDespanTotal.
+From TV Require Import Proofs.SpansNodes Proofs.SpansNodesDoc.
 
 (* 1. every span stored anywhere in a successfully parsed document (key reprs, key decor, value reprs and
       decor, array / inline-table trailing, table spans, array-of-tables spans, document trailing:
@@ -69,6 +70,16 @@ Print Assumptions C14_despan_all.
 Theorem C14_despan_value : forall s v v', value_despan s v = Some v' -> value_nospan v' = true /\ value_spans v' = [].
 Proof. exact despan_value. Qed.
 Print Assumptions C14_despan_value.
+
+(* 2f. ... at document level.  `tbl_nodes t` (Proofs/SpansNodes.v) lists every key stored anywhere in the tree as
+       (text, repr) and every value node written as a value (scalar, array, braces-delimited inline table; not the
+       tables made of dotted keys) as (span, data).  For a well-formed UTF-8 source, every key has a spanned repr
+       whose slice spells that key, and every such value node has a span whose slice re-parses to the same data
+       (`Pnode`, Proofs/SpansNodesDoc.v). *)
+Theorem C14_reparse_all : forall s d,
+  utf8_valid_b s = true -> parse_document s = POk d -> Forall (Pnode s) (tbl_nodes (doc_root d)).
+Proof. exact reparse_all. Qed.
+Print Assumptions C14_reparse_all.
 
 (* 3. nesting (`vnest` / `tnest`, Proofs/SpansDefs.v).  Every value returned by `value`: all that an array or a
       braces-delimited inline table stores (elements, keys, decor, trailing text) lies inside its span; a table
@@ -137,11 +148,6 @@ Print Assumptions C14_despan_total.
 (* ---- examples: the hypotheses are satisfiable, the statements say something --------------------------------------- *)
 (* "'é' = 'ü' # ö\n[t]\na.b = { x.y = 1, x.z = [ 2 ] }\n[[t.u]]\nk = 1\n[[t.u]]\n" (multi-byte characters, a dotted key, an
    inline table with a dotted key, an array, an array of tables) *)
-Definition c14_example : bytes :=
-  [x27;xc3;xa9;x27;x20;x3d;x20;x27;xc3;xbc;x27;x20;x23;x20;xc3;xb6;x0a;
-   x5b;x74;x5d;x0a;
-   x61;x2e;x62;x20;x3d;x20;x7b;x20;x78;x2e;x79;x20;x3d;x20;x31;x2c;x20;x78;x2e;x7a;x20;x3d;x20;x5b;x20;x32;x20;x5d;x20;x7d;x0a;
-   x5b;x5b;x74;x2e;x75;x5d;x5d;x0a; x6b;x20;x3d;x20;x31;x0a; x5b;x5b;x74;x2e;x75;x5d;x5d;x0a].
 Example c14_example_parses : exists d, parse_document c14_example = POk d /\ length (all_spans d) = 38
                                        /\ tnest (doc_root d) = true /\ dotted_inside (doc_root d) = true.
 Proof.
@@ -164,3 +170,13 @@ Example c14_example_key : exists rw k i', simple_key (new_input c14_example) = O
                                           /\ rw = RSpanned 0 4 /\ k = [xc3; xa9]
                                           /\ parse_key (slice c14_example 0 4) = POk (raw_with_span (0, 4)%N, k).
 Proof. eexists. eexists. eexists. vm_compute. repeat split. Qed.
+(* the example is well-formed UTF-8 and has 15 nodes (9 keys, 6 value nodes): C14_char_boundaries, C14_reparse_all,
+   C14_despan_total apply to it *)
+Example c14_example_nodes : utf8_valid_b c14_example = true
+                            /\ exists d, parse_document c14_example = POk d /\ length (tbl_nodes (doc_root d)) = 15.
+Proof.
+  split; [reflexivity|]. destruct (parse_document c14_example) as [d| |] eqn:E.
+  - exists d. split; [reflexivity|]. revert E. vm_compute. intro E. inversion E; subst d. reflexivity.
+  - exfalso. revert E. vm_compute. discriminate.
+  - exfalso. revert E. vm_compute. discriminate.
+Qed.
